@@ -85,6 +85,24 @@ def mon_c08_typed(case, verdict, chk):
         chk.violation("C08:panic", "the run panicked: %s" % str(case.get("panic"))[:200], replay)
 
 
+def mon_c08_goapi(case, verdict, chk):
+    """workflows built through the Go API with literals of Go types in an output: the output schema is inferred from the
+    literal; an accepted workflow returns the literal (no internal consistency error, no altered value, no panic)."""
+    if case.get("kind") != "goapi":
+        return
+    tag = "goapi:%s:%s" % (case.get("go_type"), "accepted" if case.get("accepted") else "refused")
+    chk.hist[tag] = chk.hist.get(tag, 0) + 1
+    replay = {"kind": "impl-counterexample", "case": case, "replay_harness": ["goapi"]}
+    what = "output field %s holding the Go literal %s(%s)" % (case.get("position"), case.get("go_type"), case.get("value"))
+    if case.get("panic") or case.get("timeout"):
+        chk.violation("C08:panic", "preparing / running a workflow with an %s panicked or hung: %s" % (what, str(case.get("panic"))[:200]), replay)
+    elif case.get("accepted") and case.get("err"):
+        fp = "C08:bug-error:goapi" if "bug:" in case["err"] else "C08:go-literal-not-returned"
+        chk.violation(fp, "Prepare accepted a workflow with an %s; the run failed: %s" % (what, case["err"][:300]), replay)
+    elif case.get("accepted") and not case.get("same"):
+        chk.violation("C08:go-literal-altered", "an %s was returned as %s" % (what, case.get("returned")), replay)
+
+
 # ---- streams ---------------------------------------------------------------------------------------------------------------
 
 def _errcap(facts):
@@ -163,7 +181,12 @@ SPEC = {
         T + "struct_output_needs_serialization",
     ],
     "pins": RUNLOOP_PINS + ["workflow_workflow__serializedOutput"],
-    "streams": [S_LOOP, S_ENGINE, S_TYPED, S_EVALPOS],
+    "streams": [S_LOOP, S_ENGINE, S_TYPED, S_EVALPOS,
+                # workflows built through the Go API: literals of every Go integer / float kind (edges of their ranges), bool,
+                # string, as a field, inside a list and inside a map of an output; the schema inferred from a literal accepts it
+                {"name": "goapi", "harness": lambda t, s: ["goapi"], "driver": None, "monitor": mon_c08_goapi,
+                 "nontrivial": lambda c: bool(c.get("accepted")),
+                 "sample": lambda c: {k: c.get(k) for k in ("id", "literal", "go_type", "position", "accepted", "returned", "err")}}],
     "rule": ("run-loop histories generated by scripted providers over generated workflows (distinct = distinct workflow text + "
              "event history; non-trivial = at least one step does not end in success); whole-engine runs of generated workflows with "
              "the scripted deployer/plugin (distinct = distinct workflow text + input; non-trivial = some step does not succeed or more "
